@@ -92,7 +92,10 @@ Section Scale.
   Qed.
 
   Lemma sc_sem_equiv a b : sem_equiv G a b = true -> sc a = sc b.
-  Proof. unfold sem_equiv. rewrite ueqb_spec. intros H. apply scaleR_ueq. exact H. Qed.
+  Proof.
+    unfold sem_equiv. intros H. apply equivb_spec in H as [_ Hs]. unfold sc.
+    rewrite <- (scaleR_scale (expand G a)), <- (scaleR_scale (expand G b)). apply scaleR_ueq. exact Hs.
+  Qed.
 
   Lemma sc_equiv_one n : ueqb (expand G n) uone = true -> sc n = 1.
   Proof. rewrite ueqb_spec. intros H. unfold sc. rewrite (scaleR_ueq _ _ H). apply scaleR_uone. Qed.
